@@ -764,6 +764,15 @@ impl Inner {
                     res,
                 );
             } else {
+                // The GOAWAY process has begun. Streams the peer opened above
+                // the advertised last-stream-id were discarded without being
+                // recorded: they are not idle, their frames are ignored.
+                if !self.counts.peer().is_local_init(id)
+                    && id > self.actions.recv.max_stream_id()
+                {
+                    return Ok(());
+                }
+
                 self.actions
                     .ensure_not_idle(self.counts.peer(), id)
                     .map_err(Error::library_go_away)?;
